@@ -19,3 +19,10 @@ from . import gen_shipped
 def _shipped(repo):
     files, info = gen_shipped.generate(repo)
     return files, {k: v for k, v in info.items() if k in ("translated", "hand")}
+from . import gen_spark
+
+
+@register_gen("spark")
+def _spark(repo):
+    files, info = gen_spark.generate(repo)
+    return files, {k: v for k, v in info.items() if k in ("translated", "hand")}
